@@ -5,6 +5,11 @@ From MV Require Import Model.Proxy Model.ProxySpec Gen.ProxyTokens.
 Import ListNotations RecordSetNotations.
 Open Scope Z_scope.
 
+(* a run from the initial state: final state, trace, trace summary *)
+Definition final (src : srcp) (c : cfg) (sched : list step) : st := fst (run src c (init_st 0) sched).
+Definition trace (src : srcp) (c : cfg) (sched : list step) : list out := snd (run src c (init_st 0) sched).
+Definition summ (src : srcp) (c : cfg) (sched : list step) : gs := gs_outs gs0 (trace src c sched).
+
 Definition plain_cfg : cfg :=
   {| c_oneway := false; c_data := false; c_trailers := false; c_route := RouteForward; c_nhosts := 2%nat; c_retry_on := false;
      c_num_retries := 0%nat; c_codes := []; c_try_timeout := false; c_max_retries := 0; c_recv := []; c_send := []; c_pool := []; c_delay := [] |}.
@@ -22,15 +27,15 @@ Definition outcome_ok (c : cfg) (sched : list step) (s : st) (o : list out) : bo
 Definition cfg_loop : cfg := plain_cfg <| c_num_retries := 12%nat |> <| c_pool := repeat PoolConnFail 14 |>.
 Definition sched_loop : list step := drive ++ [Env EvGlobal].   (* the global timer still fires: nobody is left to wake *)
 Lemma witness_loop :
-    quiescent (fst (run proxy_src cfg_loop (init_st 0) sched_loop)) = true /\ wdone (fst (run proxy_src cfg_loop (init_st 0) sched_loop)) = true /\ cleaned (fst (run proxy_src cfg_loop (init_st 0) sched_loop)) = false /\ g_started (gs_outs gs0 (snd (run proxy_src cfg_loop (init_st 0) sched_loop))) = false /\ x_loop (fst (run proxy_src cfg_loop (init_st 0) sched_loop)) = true /\
-  outcome_ok cfg_loop sched_loop (fst (run proxy_src cfg_loop (init_st 0) sched_loop)) (snd (run proxy_src cfg_loop (init_st 0) sched_loop)) = false.
+    quiescent (final proxy_src cfg_loop sched_loop) = true /\ wdone (final proxy_src cfg_loop sched_loop) = true /\ cleaned (final proxy_src cfg_loop sched_loop) = false /\ g_started (summ proxy_src cfg_loop sched_loop) = false /\ x_loop (final proxy_src cfg_loop sched_loop) = true /\
+  outcome_ok cfg_loop sched_loop (final proxy_src cfg_loop sched_loop) (trace proxy_src cfg_loop sched_loop) = false.
 Proof. vm_compute. repeat split; reflexivity. Qed.
 
 (* S17: request with a body, the first connection attempt fails, the retry goes out, the upstream stays silent *)
 Definition cfg_nog : cfg := plain_cfg <| c_data := true |> <| c_pool := [PoolConnFail] |>.
 Lemma witness_nog :
-    quiescent (fst (run proxy_src cfg_nog (init_st 0) drive)) = true /\ wdone (fst (run proxy_src cfg_nog (init_st 0) drive)) = false /\ ph (fst (run proxy_src cfg_nog (init_st 0) drive)) = PWaitNotify /\ global_armed (fst (run proxy_src cfg_nog (init_st 0) drive)) = false /\ try_armed (fst (run proxy_src cfg_nog (init_st 0) drive)) = None /\
-  x_nog (fst (run proxy_src cfg_nog (init_st 0) drive)) = true /\ outcome_ok cfg_nog drive (fst (run proxy_src cfg_nog (init_st 0) drive)) (snd (run proxy_src cfg_nog (init_st 0) drive)) = false.
+    quiescent (final proxy_src cfg_nog drive) = true /\ wdone (final proxy_src cfg_nog drive) = false /\ ph (final proxy_src cfg_nog drive) = PWaitNotify /\ global_armed (final proxy_src cfg_nog drive) = false /\ try_armed (final proxy_src cfg_nog drive) = None /\
+  x_nog (final proxy_src cfg_nog drive) = true /\ outcome_ok cfg_nog drive (final proxy_src cfg_nog drive) (trace proxy_src cfg_nog drive) = false.
 Proof. vm_compute. repeat split; reflexivity. Qed.
 
 (* S19: the response (503) is in, the global timer expires before the worker has looked at it (CAS lost), the worker retries:
@@ -38,7 +43,7 @@ Proof. vm_compute. repeat split; reflexivity. Qed.
 Definition cfg_lostg : cfg := plain_cfg <| c_retry_on := true |>.
 Definition sched_lostg : list step := repeat Worker 12 ++ [Env (EvUpResp 0 503 false false); Env EvGlobal] ++ drive.
 Lemma witness_lostg :
-    quiescent (fst (run proxy_src cfg_lostg (init_st 0) sched_lostg)) = true /\ wdone (fst (run proxy_src cfg_lostg (init_st 0) sched_lostg)) = false /\ ph (fst (run proxy_src cfg_lostg (init_st 0) sched_lostg)) = PWaitNotify /\ x_nog (fst (run proxy_src cfg_lostg (init_st 0) sched_lostg)) = true /\ outcome_ok cfg_lostg sched_lostg (fst (run proxy_src cfg_lostg (init_st 0) sched_lostg)) (snd (run proxy_src cfg_lostg (init_st 0) sched_lostg)) = false.
+    quiescent (final proxy_src cfg_lostg sched_lostg) = true /\ wdone (final proxy_src cfg_lostg sched_lostg) = false /\ ph (final proxy_src cfg_lostg sched_lostg) = PWaitNotify /\ x_nog (final proxy_src cfg_lostg sched_lostg) = true /\ outcome_ok cfg_lostg sched_lostg (final proxy_src cfg_lostg sched_lostg) (trace proxy_src cfg_lostg sched_lostg) = false.
 Proof. vm_compute. repeat split; reflexivity. Qed.
 
 (* S18: TerminateStream, then an upstream reset is seen by the processError of phase UpFilter *)
@@ -46,8 +51,8 @@ Definition cfg_upf : cfg := plain_cfg <| c_recv := [{| f_phase := 0%nat; f_code 
 Definition sched_upf : list step :=
   repeat Worker 12 ++ [Env (EvTerminate 403); Worker; Env (EvUpReset 0 RsRemoteReset)] ++ repeat Worker 6.
 Lemma witness_upf :
-    quiescent (fst (run proxy_src cfg_upf (init_st 0) sched_upf)) = true /\ wdone (fst (run proxy_src cfg_upf (init_st 0) sched_upf)) = true /\ cleaned (fst (run proxy_src cfg_upf (init_st 0) sched_upf)) = false /\ g_started (gs_outs gs0 (snd (run proxy_src cfg_upf (init_st 0) sched_upf))) = false /\ x_upf (fst (run proxy_src cfg_upf (init_st 0) sched_upf)) = true /\
-  outcome_ok cfg_upf sched_upf (fst (run proxy_src cfg_upf (init_st 0) sched_upf)) (snd (run proxy_src cfg_upf (init_st 0) sched_upf)) = false.
+    quiescent (final proxy_src cfg_upf sched_upf) = true /\ wdone (final proxy_src cfg_upf sched_upf) = true /\ cleaned (final proxy_src cfg_upf sched_upf) = false /\ g_started (summ proxy_src cfg_upf sched_upf) = false /\ x_upf (final proxy_src cfg_upf sched_upf) = true /\
+  outcome_ok cfg_upf sched_upf (final proxy_src cfg_upf sched_upf) (trace proxy_src cfg_upf sched_upf) = false.
 Proof. vm_compute. repeat split; reflexivity. Qed.
 
 (* --- the two repaired defects, shown on the source switches set back --- *)
@@ -55,21 +60,21 @@ Definition src_unguarded : srcp := proxy_src <| reset_guarded := false |>.
 Definition cfg_breaker : cfg := plain_cfg <| c_max_retries := 3 |>.
 Definition sched_plain : list step := repeat Worker 12 ++ [Env (EvUpResp 0 200 false false)] ++ repeat Worker 8.
 Lemma witness_unguarded :
-    wdone (fst (run src_unguarded cfg_breaker (init_st 0) sched_plain)) = true /\ cleaned (fst (run src_unguarded cfg_breaker (init_st 0) sched_plain)) = true /\ g_res (gs_outs gs0 (snd (run src_unguarded cfg_breaker (init_st 0) sched_plain))) = -4 /\ rc (fst (run src_unguarded cfg_breaker (init_st 0) sched_plain)) = -4.
+    wdone (final src_unguarded cfg_breaker sched_plain) = true /\ cleaned (final src_unguarded cfg_breaker sched_plain) = true /\ g_res (summ src_unguarded cfg_breaker sched_plain) = -4 /\ rc (final src_unguarded cfg_breaker sched_plain) = -4.
 Proof. vm_compute. repeat split; reflexivity. Qed.
 Lemma witness_guarded :
-    wdone (fst (run (proxy_src <| reset_guarded := true |>) cfg_breaker (init_st 0) sched_plain)) = true /\ cleaned (fst (run (proxy_src <| reset_guarded := true |>) cfg_breaker (init_st 0) sched_plain)) = true /\ g_res (gs_outs gs0 (snd (run (proxy_src <| reset_guarded := true |>) cfg_breaker (init_st 0) sched_plain))) = 0 /\ g_res_min (gs_outs gs0 (snd (run (proxy_src <| reset_guarded := true |>) cfg_breaker (init_st 0) sched_plain))) = 0.
+    wdone (final (proxy_src <| reset_guarded := true |>) cfg_breaker sched_plain) = true /\ cleaned (final (proxy_src <| reset_guarded := true |>) cfg_breaker sched_plain) = true /\ g_res (summ (proxy_src <| reset_guarded := true |>) cfg_breaker sched_plain) = 0 /\ g_res_min (summ (proxy_src <| reset_guarded := true |>) cfg_breaker sched_plain) = 0.
 Proof. vm_compute. repeat split; reflexivity. Qed.
 
 Definition src_keep_again : srcp := proxy_src <| direct_clears_again := false |>.
 Definition cfg_hc : cfg :=
   plain_cfg <| c_recv := [{| f_phase := 1%nat; f_code := 403; f_verdicts := [VHijackCont] |}; {| f_phase := 1%nat; f_code := 0; f_verdicts := [VReMatch] |}] |>.
 Lemma witness_keep_again :
-    g_denied (gs_outs gs0 (snd (run src_keep_again cfg_hc (init_st 0) sched_plain))) = true /\ g_new_after_deny (gs_outs gs0 (snd (run src_keep_again cfg_hc (init_st 0) sched_plain))) = true /\
-  g_reply_kind (gs_outs gs0 (snd (run src_keep_again cfg_hc (init_st 0) sched_plain))) = Some (KUp, 200).
+    g_denied (summ src_keep_again cfg_hc sched_plain) = true /\ g_new_after_deny (summ src_keep_again cfg_hc sched_plain) = true /\
+  g_reply_kind (summ src_keep_again cfg_hc sched_plain) = Some (KUp, 200).
 Proof. vm_compute. repeat split; reflexivity. Qed.
 Lemma witness_clear_again :
-    g_denied (gs_outs gs0 (snd (run (proxy_src <| direct_clears_again := true |>) cfg_hc (init_st 0) sched_plain))) = true /\ g_new (gs_outs gs0 (snd (run (proxy_src <| direct_clears_again := true |>) cfg_hc (init_st 0) sched_plain))) = 0%nat /\ g_reply_kind (gs_outs gs0 (snd (run (proxy_src <| direct_clears_again := true |>) cfg_hc (init_st 0) sched_plain))) = Some (KHijack, 403).
+    g_denied (summ (proxy_src <| direct_clears_again := true |>) cfg_hc sched_plain) = true /\ g_new (summ (proxy_src <| direct_clears_again := true |>) cfg_hc sched_plain) = 0%nat /\ g_reply_kind (summ (proxy_src <| direct_clears_again := true |>) cfg_hc sched_plain) = Some (KHijack, 403).
 Proof. vm_compute. repeat split; reflexivity. Qed.
 
 Definition src_keep_retry : srcp := proxy_src <| direct_cancels_retry := false |>.
@@ -79,9 +84,9 @@ Definition cfg_leak : cfg := plain_cfg <| c_max_retries := 2 |> <| c_pool := [Po
 Definition sched_leak : list step :=
   repeat Worker 6 ++ [Env (EvTerminate 403)] ++ drive ++ [Env (EvUpResp 1 200 false false)] ++ repeat Worker 8.
 Lemma witness_keep_retry :
-    wdone (fst (run src_keep_retry cfg_leak (init_st 0) sched_leak)) = true /\ cleaned (fst (run src_keep_retry cfg_leak (init_st 0) sched_leak)) = true /\ g_res (gs_outs gs0 (snd (run src_keep_retry cfg_leak (init_st 0) sched_leak))) = 1 /\ g_reply_kind (gs_outs gs0 (snd (run src_keep_retry cfg_leak (init_st 0) sched_leak))) = Some (KUp, 200).
+    wdone (final src_keep_retry cfg_leak sched_leak) = true /\ cleaned (final src_keep_retry cfg_leak sched_leak) = true /\ g_res (summ src_keep_retry cfg_leak sched_leak) = 1 /\ g_reply_kind (summ src_keep_retry cfg_leak sched_leak) = Some (KUp, 200).
 Proof. vm_compute. repeat split; reflexivity. Qed.
 Lemma witness_cancel_retry :
-    wdone (fst (run (proxy_src <| direct_cancels_retry := true |>) cfg_leak (init_st 0) sched_leak)) = true /\ cleaned (fst (run (proxy_src <| direct_cancels_retry := true |>) cfg_leak (init_st 0) sched_leak)) = true /\ g_res (gs_outs gs0 (snd (run (proxy_src <| direct_cancels_retry := true |>) cfg_leak (init_st 0) sched_leak))) = 0 /\ g_reply_kind (gs_outs gs0 (snd (run (proxy_src <| direct_cancels_retry := true |>) cfg_leak (init_st 0) sched_leak))) = Some (KHijack, 403) /\
-  g_new (gs_outs gs0 (snd (run (proxy_src <| direct_cancels_retry := true |>) cfg_leak (init_st 0) sched_leak))) = 1%nat.
+    wdone (final (proxy_src <| direct_cancels_retry := true |>) cfg_leak sched_leak) = true /\ cleaned (final (proxy_src <| direct_cancels_retry := true |>) cfg_leak sched_leak) = true /\ g_res (summ (proxy_src <| direct_cancels_retry := true |>) cfg_leak sched_leak) = 0 /\ g_reply_kind (summ (proxy_src <| direct_cancels_retry := true |>) cfg_leak sched_leak) = Some (KHijack, 403) /\
+  g_new (summ (proxy_src <| direct_cancels_retry := true |>) cfg_leak sched_leak) = 1%nat.
 Proof. vm_compute. repeat split; reflexivity. Qed.
